@@ -207,6 +207,38 @@ def _member_type(cls, t):
 # ---------------------------------------------------------------------------
 
 
+def parts(value, ann):
+  """One-level decomposition of (value, ann) into [(sub_value, sub_annotation)].
+
+  Only when the value has the outer shape the constructor asks for (right
+  container class, right tuple length) and its elements can be inspected
+  without consuming anything; otherwise [].  member(value, ann) is the
+  conjunction of the parts (disjunction for a Union).
+  """
+  origin = typing.get_origin(ann)
+  args = typing.get_args(ann)
+  if origin is typing.Union:
+    return [(value, a) for a in args]
+  if not args:
+    return []
+  if origin in (list, set, frozenset) and isinstance(value, origin):
+    return [(e, args[0]) for e in value]
+  if origin is dict and isinstance(value, dict):
+    return [(k, args[0]) for k in value.keys()] + [(v, args[1]) for v in value.values()]
+  if origin is tuple and isinstance(value, tuple) and args != ((),):
+    if len(args) == 2 and args[1] is Ellipsis:
+      return [(e, args[0]) for e in value]
+    if len(args) == len(value):
+      return list(zip(value, args))
+    return []
+  if origin in (cabc.Sequence, cabc.Iterable, cabc.Collection) and isinstance(value, origin) \
+      and not isinstance(value, str) and _elements(value) is not None:
+    return [(e, args[0]) for e in _elements(value)]
+  if origin is cabc.Mapping and isinstance(value, dict):
+    return [(k, args[0]) for k in value.keys()] + [(v, args[1]) for v in value.values()]
+  return []
+
+
 def why(value, ann):
   """Innermost sub-pairs explaining member(value, ann) is False.
 
